@@ -134,9 +134,9 @@ def r3_no_shared_framing_state(ck, cx):
 
 def run(ck, tier):
     cx = Ctx()
-    r1_containment(ck, cx, tier)
-    r2_who_may_mutate(ck, cx)
-    r3_no_shared_framing_state(ck, cx)
+    ck.guard(r1_containment, ck, cx, tier)
+    ck.guard(r2_who_may_mutate, ck, cx)
+    ck.guard(r3_no_shared_framing_state, ck, cx)
     ck.assume('statements of the receive loops other than the framer call and the transport read are treated as non-raising (logging, attribute reads)')
     ck.assume('what a decoded-but-nonsensical PDU does inside decode() is shown to be contained, not absent; resource exhaustion is not decided')
     return cx.idx
